@@ -223,6 +223,14 @@ def mk_environ(scheme, name, port, host, script, path_info, qs):
 
 def mk_scope(scheme, server, root, path, qs, headers):
     s = {"type": "http", "path": path, "headers": headers}
+    if len(path) % 2 == 0:
+        # every other scope also carries the optional `raw_path` (the path as it was on the wire: percent-encoded
+        # bytes), as uvicorn / hypercorn / daphne scopes do; the URL is built from the DECODED path
+        try:
+            from urllib.parse import quote as _q
+            s["raw_path"] = _q(path, safe="/").encode("ascii")
+        except Exception:  # noqa
+            s["raw_path"] = b"/raw"
     if scheme is not None:
         s["scheme"] = scheme
     if server is not None:
